@@ -60,6 +60,11 @@ def battery_case(args):
             out[f"early component_at {v}"] = num(it.call(it.getattr(de, "component_at"), [v, pt], {}))
             out[f"as_expression {v}"] = expr(it.call(it.getattr(it.call(cref(model, "Partial"), [e, v], {}), "as_expression"), [], {}))
             out[f"early as_expression {v}"] = expr(it.call(it.getattr(it.call(it.getattr(de, "component"), [v], {}), "as_expression"), [], {}))
+        # the same objects, the same point with its coordinates written in the reverse order
+        pt2 = make_point_concrete(it, {k: COORDS[k] for k in reversed(coord_order)})
+        out["at (reordered point, same objects)"] = num(it.call(it.getattr(e, "at"), [pt2], {}))
+        out["located (reordered point, same objects)"] = num(it.call(it.getattr(
+            it.call(cref(model, "LocatedDifferential"), [e, pt2], {}), "component"), ["b"], {}))
         out["normalize"] = expr(it.call(it.getattr(e, "_normalize"), [], {}))
         out["repr"] = it.to_repr(e)
         out["hash-consistent"] = repr(it.call_builtin("hash", [e], {}) == it.call_builtin("hash", [build(it, tree, {})], {}))
@@ -82,6 +87,14 @@ def check(rep):
         by.setdefault(n, []).append(((so, co), r))
     for n, runs in by.items():
         ref_cfg, ref = runs[0]
+        if ref["status"] == "ok":
+            o = ref["out"]
+            for a, b in (("at", "at (reordered point, same objects)"), ("located b", "located (reordered point, same objects)")):
+                if o.get(a) != o.get(b):
+                    rep.violation("C18.configurations", f"{a} of {n}", "",
+                                  f"the battery expression {n!r} gives {o.get(a)} at a point and {o.get(b)} at the same "
+                                  f"point written with its coordinates in the reverse order (same objects, same process)",
+                                  witness_class=f"{a} depends on coordinate order (same objects)")
         if ref["status"] != "ok":
             rep.unknown("C18.configurations", n, "", f"{ref.get('reason') or ref.get('exc')}")
             continue
